@@ -9,7 +9,7 @@
 //! prune-flagged operation; a failed input changes nothing.
 use std::collections::BTreeSet;
 
-use explorer::{dfs, json, Chooser, DfsCfg, Report};
+use explorer::{json, Chooser, DfsCfg, Report};
 use p2panda::operation::{Extensions, LogId, Operation};
 use p2panda::node::AckPolicy;
 use p2panda::processor::verif::{Pipeline, TaskTracker};
@@ -176,7 +176,16 @@ async fn feed(pipeline: &Pipeline<LogId, Extensions, Topic>, store: &SqliteStore
     Ok(matches!(r, Some(StreamEvent::ProcessingFailed { .. })))
 }
 
-fn execute(ch: &Chooser, w: &World, depth: usize, rt: &tokio::runtime::Runtime) -> Result<Vec<StepObs>, String> {
+thread_local! {
+    static RT: tokio::runtime::Runtime = tokio::runtime::Builder::new_current_thread().enable_all().build().expect("rt");
+}
+
+fn execute(ch: &Chooser, w: &World, depth: usize, per_input_upto: usize) -> Result<Vec<StepObs>, String> {
+    mock_instant::thread_local::MockClock::set_system_time(std::time::Duration::from_secs(1_000));
+    RT.with(|rt| execute_on(ch, w, depth, per_input_upto, rt))
+}
+
+fn execute_on(ch: &Chooser, w: &World, depth: usize, per_input_upto: usize, rt: &tokio::runtime::Runtime) -> Result<Vec<StepObs>, String> {
     rt.block_on(async {
         let store = SqliteStore::temporary().await;
         let pipeline = Pipeline::<LogId, Extensions, Topic>::new(store.clone(), TaskTracker::new());
@@ -187,11 +196,17 @@ fn execute(ch: &Chooser, w: &World, depth: usize, rt: &tokio::runtime::Runtime) 
         }
         let mut out = vec![];
         let len = 1 + ch.choose_free(depth, "length");
+        // sequences of up to `per_input_upto` inputs choose the entry point per input, longer ones
+        // arrive through one entry point (chosen per sequence)
+        let fixed_source = if len > per_input_upto { Some(ch.choose_free(3, "source-of-sequence")) } else { None };
         for _ in 0..len {
             let i = &w.menu[ch.choose_free(w.menu.len(), "input")];
             let before = snapshot(&store, &w.authors, &w.topics).await;
             // entry point the operation arrives through: import, sync session, replay from the local store
-            let source_kind = ch.choose_free(3, "source");
+            let source_kind = match fixed_source {
+                Some(k) => k,
+                None => ch.choose_free(3, "source"),
+            };
             let failed = feed(&pipeline, &store, i, source_kind).await?;
             let after = snapshot(&store, &w.authors, &w.topics).await;
             let author = w.authors.iter().find(|(_, k)| *k == i.op.header.verifying_key).map(|(n, _)| n.clone()).unwrap_or("?".into());
@@ -207,11 +222,15 @@ fn execute(ch: &Chooser, w: &World, depth: usize, rt: &tokio::runtime::Runtime) 
 pub fn run(mut rep: Report) -> i32 {
     let thorough = rep.thorough();
     let depth = if thorough { 3 } else { 2 };
+    let per_input_upto = if thorough { 2 } else { 1 };
     let w = world(thorough);
-    rep.rule = format!("after a fixed honest setup (victim V: 3 ops in topic 1, 2 ops in topic 2; attacker X: 2 ops in topic 1) every sequence of 1..={depth} inputs from a menu of {} (forged prune-flagged operations claiming V's key at several seqs and for both topics, signed by X or carrying a stolen signature; X's own valid prune op; V's honest prune op; V's valid non-prune successor; a valid op arriving on the other topic's stream) goes through the real Pipeline (ingest + log prune) on SqliteStore; non-trivial = sequence containing a failed input and an accepted prune", w.menu.len());
-    let rt = tokio::runtime::Builder::new_current_thread().enable_all().build().expect("rt");
+    rep.rule = format!("after a fixed honest setup (victim V: 3 ops in topic 1, 2 ops in topic 2; attacker X: 2 ops in topic 1) every sequence of 1..={depth} inputs (each through one of three entry points: import, sync session, replay; chosen per input in sequences of up to {per_input_upto}, per sequence in longer ones) from a menu of {} (forged prune-flagged operations claiming V's key at several seqs and for both topics, signed by X or carrying a stolen signature; X's own valid prune op; V's honest prune op; V's valid non-prune successor; a valid op arriving on the other topic's stream) goes through the real Pipeline (ingest + log prune) on SqliteStore; non-trivial = sequence containing a failed input and an accepted prune", w.menu.len());
     let mut all: Vec<(Vec<u32>, Result<Vec<StepObs>, String>)> = vec![];
-    let stats = dfs(&DfsCfg { wall: std::time::Duration::from_secs(if thorough { 1200 } else { 120 }), ..Default::default() }, |ch| execute(ch, &w, depth, &rt), |ch, r| all.push((ch.vector(), r)));
+    let stats = explorer::dfs_par(
+        &DfsCfg { wall: std::time::Duration::from_secs(if thorough { 1500 } else { 120 }), threads: if thorough { 12 } else { 4 }, ..Default::default() },
+        |ch| execute(ch, &w, depth, per_input_upto),
+        |ch, r| all.push((ch.vector(), r)),
+    );
     rep.absorb_dfs("pipeline", &stats, usize::MAX);
     for (vector, r) in all {
         let steps = match r {
